@@ -40,6 +40,15 @@ def run():
     res = vlib.validate_sharded('TraceHash', 'TraceHash.cfg', lines, 'c02', shards=16, timeout=6000, xmx='6g', group=groups(lines), independent=False)
     ck.add_traces('TraceHash', res, 'intermediate values of real hashes: seed, scratchpad-fill links, generator hand-over, all 8 program buffers, sampled loop iterations executed by the TLA+ VM, register files, re-seeding, fingerprint links, final digest')
     ck.reject('TraceHash', res, key_of)
+    # the arrows the composition takes as given are bound to the code here as well, on their own inputs: Blake2b (seed, re-seeding,
+    # result, generator refill), the AES layer (fill, program generator, fingerprint), the Argon2d fill on reduced instances (cache)
+    # and the SuperscalarHash program generator on directed byte streams (dataset item)
+    from checks import c09, c10, c11, c12
+    jobs = [lambda: c11.bind(ck, 'c02blake'), lambda: c12.bind(ck, 'c02aes'), lambda: c10.bind(ck, os.path.join(wd, 'argon'), 'reduced', 'c02argon'),
+            lambda: c09.scripted(ck, os.path.join(wd, 'ssx'), 'c02ssx', lite=True)]
+    with ThreadPoolExecutor(len(jobs)) as ex:
+        for f in [ex.submit(j) for j in jobs]:
+            f.result()
     kinds = {}
     for l in lines:
         e = l[6:l.index('"', 6)]
